@@ -67,6 +67,8 @@ class Wire(object):
         self.abort_requested += 1
 
     def getHost(self):
+        if ':' in self._host[0]:
+            return address.IPv6Address('TCP', *self._host)
         return address.IPv4Address('TCP', *self._host)
 
     def getPeer(self):
